@@ -377,4 +377,73 @@ theorem parLadder_conj (L i : ℕ) (hi : i < L) (create : Bool) :
   · rw [← encLadder_adjoint, hA, Matrix.conjTranspose_mul, Matrix.conjTranspose_mul, Matrix.conjTranspose_conjTranspose,
       ← ladder_conjTranspose, Matrix.conjTranspose_conjTranspose, Matrix.mul_assoc]
 
+/-! ### not Jordan-Wigner, at the level of matrices -/
+
+/-- on two or more sites the parity-encoded annihilation operator is not the Jordan-Wigner (= fermionic reference) one:
+a matrix entry where they differ -/
+theorem parity_ladder_ne (L i : ℕ) (hL : 2 ≤ L) (hi : i < L) (create : Bool) :
+    encLadder .parity L i create ≠ ladder L i create := by
+  have hA : encLadder .parity L i false ≠ ladder L i false := by
+    intro heq
+    by_cases hlast : i = L - 1
+    · -- `c = |…011⟩`, `r = |…010⟩` (sites `L-2`, `L-1`)
+      let c : Fin L → Bool := fun k => decide (k.val + 2 = L ∨ k.val + 1 = L)
+      let r : Fin L → Bool := fun k => decide (k.val + 2 = L)
+      have h1 : ladder L i false r c = 1 := by
+        rw [ladA_apply L i hi, if_pos]
+        · apply Finset.prod_eq_one; intro k _
+          have : ¬ i < k.val := by have := k.isLt; omega
+          simp [this]
+        · refine ⟨fun k => ?_, ?_⟩
+          · by_cases hk : k.val = i
+            · simp only [r, c, hk, if_true, decide_eq_false_iff_not]; omega
+            · simp only [r, c, hk, if_false, decide_eq_decide]; have := k.isLt; omega
+          · simp only [c, decide_eq_true_eq]; omega
+      have h2 : encLadder .parity L i false r c = 0 := by
+        rw [parA_apply L i hi, if_pos]
+        · have hs : sgnPrev L i r = -1 := by
+            rw [sgnPrev, Finset.prod_eq_single (⟨L - 2, by omega⟩ : Fin L)]
+            · have e1 : L - 2 + 1 = i := by omega
+              have e2 : L - 2 + 2 = L := by omega
+              simp [r, e1, e2]
+            · intro k _ hk
+              have : ¬ k.val + 1 = i := fun e => hk (Fin.ext (by show k.val = L - 2; omega))
+              simp [this]
+            · intro h; exact absurd (Finset.mem_univ _) h
+          have hr : r ⟨i, hi⟩ = false := by simp only [r, decide_eq_false_iff_not]; omega
+          rw [hs, hr]; simp
+        · intro k
+          simp only [r, c]
+          by_cases hk : i ≤ k.val
+          · have hk' : k.val + 1 = L := by have := k.isLt; omega
+            have : ¬ k.val + 2 = L := by omega
+            simp [hk, hk', this]
+          · have : ¬ k.val + 1 = L := by omega
+            simp [hk, this]
+      rw [heq, h1] at h2; exact one_ne_zero h2
+    · -- `c = |0…010…0⟩` (site `i`), `r = |0…0⟩`: the parity operator would also have to flip qubit `L-1`
+      let c : Fin L → Bool := fun k => decide (k.val = i)
+      let r : Fin L → Bool := fun _ => false
+      have h1 : ladder L i false r c = 1 := by
+        rw [ladA_apply L i hi, if_pos]
+        · apply Finset.prod_eq_one; intro k _
+          have : ¬ (i < k.val ∧ c k = true) := by simp only [c, decide_eq_true_eq]; omega
+          simp [this]
+        · refine ⟨fun k => ?_, by simp [c]⟩
+          by_cases hk : k.val = i <;> simp [r, c, hk]
+      have h2 : encLadder .parity L i false r c = 0 := by
+        rw [parA_apply L i hi, if_neg]
+        intro h
+        have := h ⟨L - 1, by omega⟩
+        have hne : ¬ L - 1 = i := fun e => hlast e.symm
+        have hle : i ≤ L - 1 := by omega
+        simp [r, c, hne, hle] at this
+      rw [heq, h1] at h2; exact one_ne_zero h2
+  cases create
+  · exact hA
+  · intro heq
+    apply hA
+    rw [← Matrix.conjTranspose_conjTranspose (encLadder .parity L i false), encLadder_adjoint, heq, ladder_conjTranspose]
+
+
 end Qib.Encode
